@@ -211,9 +211,9 @@ func WrappedClosures(fn *ssa.Function) []WrappedClosure {
 					w.Once = true
 					for _, r := range Returns(h) {
 						if h.Recover != nil && r.Block() == h.Recover {
-						continue // resumption point after a recovered panic, not a normal exit
-					}
-					if !Before(w.Invokes[0], r) {
+							continue // resumption point after a recovered panic, not a normal exit
+						}
+						if !Before(w.Invokes[0], r) {
 							w.Once = false
 						}
 					}
